@@ -83,15 +83,15 @@ func init() {
 					case 1:
 						return TupleV{SliceV{}, e.newError("read: is a directory")}
 					case 2:
-						arr := e.newObj(ArrayV{}, nil)
+						arr := e.newObj(ArrayV{E: []Value{e.tf.Int(0)}}, nil) // opaque non-empty content
 						arr.Aux = &protoBlob{bad: true}
-						return TupleV{SliceV{Arr: arr}, IfaceV{}}
+						return TupleV{SliceV{Arr: arr, Len: 1, Cap: 1}, IfaceV{}}
 					case 3:
 						return TupleV{SliceV{}, IfaceV{}}
 					}
-					arr := e.newObj(ArrayV{}, nil)
+					arr := e.newObj(ArrayV{E: []Value{e.tf.Int(0)}}, nil) // opaque non-empty content
 					arr.Aux = &protoBlob{msg: en.msg}
-					return TupleV{SliceV{Arr: arr}, IfaceV{}}
+					return TupleV{SliceV{Arr: arr, Len: 1, Cap: 1}, IfaceV{}}
 				}
 			}
 		}
